@@ -25,9 +25,10 @@ func devMain(args []string) int {
 		inv := fs.Int("inv", 2, "")
 		faults := fs.Int("faults", 1, "")
 		show := fs.Int("show", 5, "")
+		noview := fs.Bool("noview", false, "")
 		fs.Parse(args[1:])
 		ft, ok := fam.Presets[*feat]
-		if !ok && *feat != "lib" && *feat != "chain" && *feat != "shadow" && *feat != "groups" && *feat != "keys" && *feat != "softnest" && *feat != "reenter" && *feat != "libgroups" {
+		if !ok && *feat != "lib" && *feat != "chain" && *feat != "shadow" && *feat != "groups" && *feat != "keys" && *feat != "softnest" && *feat != "reenter" && *feat != "libgroups" && *feat != "groupcycle" {
 			fmt.Println("unknown preset")
 			return 2
 		}
@@ -37,6 +38,8 @@ func devMain(args []string) int {
 			cats = fam.Sample(fam.Chain([]cat.Opts{{Recover: true}}, false), *seed, *n)
 		case "shadow":
 			cats = fam.Sample(fam.Shadow([]cat.Opts{{Recover: true}}, false), *seed, *n)
+		case "groupcycle":
+			cats = fam.Sample(fam.GroupCycle([]cat.Opts{{Recover: true}, {Recover: true, Defer: true}}, false), *seed, *n)
 		case "reenter":
 			cats = fam.Sample(fam.Reenter([]cat.Opts{{Recover: true}, {Recover: false}}, false), *seed, *n)
 		case "softnest":
@@ -52,7 +55,7 @@ func devMain(args []string) int {
 		if *feat == "lib" {
 			cats = fam.LibFamily(*seed, *n, []cat.Opts{{Recover: true}, {Recover: false}}, true)
 		}
-		st, err := coverStage(*feat, cats, Bounds{MaxInv: *inv, MaxFaults: *faults, FaultKinds: []string{"err", "panic"}}, 10*time.Minute, *show, os.Getenv("VERIF_COVERAGE") != "")
+		st, err := coverStage(*feat, cats, Bounds{MaxInv: *inv, MaxFaults: *faults, FaultKinds: []string{"err", "panic"}, NoView: *noview}, 10*time.Minute, *show, os.Getenv("VERIF_COVERAGE") != "")
 		if st != nil {
 			fmt.Println(st.summary())
 			if st.TLC.Coverage != nil {
